@@ -86,6 +86,7 @@ let rec parse_val (toks : string list) : val0 * string list =
     else if t = "T" then (VBool true, rest)
     else if t = "F" then (VBool false, rest)
     else if t = "MARK" then (VMark, rest)
+    else if t = "NIL" then (VMark, rest)   (* a nil Dict value: opaque to the Dict; printed as MARK, mapped back by the harness *)
     else if starts t "i:" then (VInt (z_of_dec (after t "i:")), rest)
     else if starts t "i8:" then (VInt (z_of_dec (after t "i8:")), rest)
     else if starts t "i16:" then (VInt (z_of_dec (after t "i16:")), rest)
